@@ -30,14 +30,22 @@ def elementary(case):
 
 # ------------------------------------------------------------------ generation
 
+def with_interval_form(rng, nd):
+    """a quarter of the timing nodes get their interval as a string ('1s', '250ms') instead of a number of seconds"""
+    r = rng.random()
+    if r < 0.25:
+        nd["interval_str"] = "ms" if r < 0.12 else "s"
+    return nd
+
+
 def gen_async_node(rng, kinds):
     k = rng.choice(kinds)
     if k == "buffer":
         return {"kind": "buffer", "n": rng.choice([1, 1, 2, 3])}
     if k == "delay":
-        return {"kind": "delay", "interval": rng.choice([0.5, 1])}
+        return with_interval_form(rng, {"kind": "delay", "interval": rng.choice([0.5, 1])})
     if k == "rate_limit":
-        return {"kind": "rate_limit", "interval": rng.choice([0.25, 1])}
+        return with_interval_form(rng, {"kind": "rate_limit", "interval": rng.choice([0.25, 1])})
     if k == "map_async":
         nd = {"kind": "map_async", "f": rng.choice([["inc"], ["dbl"], ["id"]]), "parallelism": rng.choice([1, 1, 2, 3])}
         if rng.random() < 0.2:
@@ -47,11 +55,11 @@ def gen_async_node(rng, kinds):
             nd["call_form"] = "args" if r < 0.15 else "kwargs"      # map_async(func, *args, **kwargs) calls func(x, *args, **kwargs)
         return nd
     if k == "timed_window":
-        return {"kind": "timed_window", "interval": rng.choice([1, 2])}
+        return with_interval_form(rng, {"kind": "timed_window", "interval": rng.choice([1, 2])})
     if k == "timed_window_unique":
-        return {"kind": "timed_window_unique", "interval": rng.choice([1, 2]),
-                "key": rng.choice([["modk", 2], ["modk", 3], ["id"], ["bucketNone", 2], ["bucketNone", 3]]),
-                "keep": rng.choice(["first", "last"])}
+        return with_interval_form(rng, {"kind": "timed_window_unique", "interval": rng.choice([1, 2]),
+                                        "key": rng.choice([["modk", 2], ["modk", 3], ["id"], ["bucketNone", 2], ["bucketNone", 3]]),
+                                        "keep": rng.choice(["first", "last"])})
     if k == "partition_timeout":
         return {"kind": "partition_timeout", "n": rng.choice([2, 3]), "timeout": rng.choice([1, 1, 2, 2, 0]), "key": rng.choice([None, None, ["modk", 2]])}     # (timeout=0: flushed at once)
     if k == "latest":
